@@ -724,7 +724,7 @@ func (c *Client) onPUBREC() error {
 	}
 	c.orderedTxs.Received++
 
-	err = c.write(nil, c.pendingAck)
+	err = c.writeNoWait(c.pendingAck)
 	if err != nil {
 		return err // keeps pendingAck to retry
 	}
